@@ -5,12 +5,12 @@ import vdriver
 from checks import C01, C10
 
 PROP = "C14"
-KINDS = 22
+KINDS = 25
 STRIDE = 8
-RULE = ("fault enumeration: for each scenario of a fixed family (22 kinds x variants: UDP, retry, TC->TCP, TCP, fast-open, "
+RULE = ("fault enumeration: for each scenario of a fixed family (25 kinds x variants: UDP, retry, TC->TCP, TCP, fast-open, "
         "stay-open, per-socket limit, getaddrinfo+sorting, cancel, server change, search, TCP reset, cache hits, hosts file, "
         "reverse lookups, reinit, dup/save/sortlist, destroy with requests outstanding, multi-domain search + legacy "
-        "entry points, init with many options, 28 concurrent requests growing the query and socket tables) one reference run counts the allocations N made between ares_init_options "
+        "entry points, init with many options, 28 concurrent requests growing the query and socket tables, literal/local names, full and malformed system configuration + environment + reinit) one reference run counts the allocations N made between ares_init_options "
         "and the end of ares_destroy through a counting allocator installed with ares_library_init_mem, then the scenario "
         "is re-run N+1 times failing exactly the n-th allocation. Each run is judged by: ASan/UBSan; exactly one callback "
         "per request; descriptor protocol; nothing stuck; ledger empty after destroy; no free of an unknown block; a fresh "
